@@ -32,6 +32,7 @@ def run(ctx):
     R.floor("tables_read_by_get_logs", len(reads), 3)
     for dm in ("reorg", "clear_caches", "commit_changes"):
         T.clause_tables(R, F, dm, only_fields=reads)
+    T.clause_index_scan_bounds(R, F, only_methods={"get_logs"})
     # 1. order + completeness; uncommitted rows shadow committed ones ("whether or not the blocks have been committed")
     T.clause_scan_unord(R, F, CG, U)
     T.clause_read_merge(R, F, scans=("get_range",))
